@@ -152,3 +152,32 @@ def jdump(obj, path: pathlib.Path):
     tmp = path.with_suffix(path.suffix + ".tmp")
     tmp.write_text(json.dumps(obj, indent=1, default=str))
     tmp.replace(path)
+
+
+def jenc(o):
+    """JSON-safe encoding that survives a round trip: tuples and dicts with non-string keys are tagged"""
+    if isinstance(o, tuple):
+        return {"__tuple__": [jenc(x) for x in o]}
+    if isinstance(o, list):
+        return [jenc(x) for x in o]
+    if isinstance(o, dict):
+        if all(isinstance(k, str) for k in o) and "__tuple__" not in o and "__dict__" not in o:
+            return {k: jenc(v) for k, v in o.items()}
+        return {"__dict__": [[jenc(k), jenc(v)] for k, v in o.items()]}
+    if isinstance(o, bytes):
+        return {"__bytes__": list(o)}
+    return o
+
+
+def jdec(o):
+    if isinstance(o, list):
+        return [jdec(x) for x in o]
+    if isinstance(o, dict):
+        if set(o) == {"__tuple__"}:
+            return tuple(jdec(x) for x in o["__tuple__"])
+        if set(o) == {"__dict__"}:
+            return {jdec(k): jdec(v) for k, v in o["__dict__"]}
+        if set(o) == {"__bytes__"}:
+            return bytes(o["__bytes__"])
+        return {k: jdec(v) for k, v in o.items()}
+    return o
